@@ -84,6 +84,14 @@ func runConc(scnFile, traceFile, concFile string) error {
 	if err := json.Unmarshal(data, &scn); err != nil {
 		return err
 	}
+	// the builder/getter log starts before the prelude: in a warm scenario the tables are built there (by goroutine -1)
+	var watch []int
+	for _, f := range strings.Split(os.Getenv("VERIF_WATCH"), ",") {
+		if v, err := strconv.Atoi(f); err == nil {
+			watch = append(watch, v)
+		}
+	}
+	verifrt.ConcStart(watch)
 	shared := newRegs()
 	var prelude []Event
 	for i := range scn.Prelude {
@@ -93,16 +101,9 @@ func runConc(scnFile, traceFile, concFile string) error {
 	events := make([][]Event, n)
 	start := make(chan struct{})
 	var wg sync.WaitGroup
-	var watch []int
-	for _, f := range strings.Split(os.Getenv("VERIF_WATCH"), ",") {
-		if v, err := strconv.Atoi(f); err == nil {
-			watch = append(watch, v)
-		}
-	}
 	if c, err := strconv.ParseUint(os.Getenv("VERIF_CHAOS"), 10, 64); err == nil {
 		verifrt.SetChaos(c)
 	}
-	verifrt.ConcStart(watch)
 	for g := 0; g < n; g++ {
 		wg.Add(1)
 		go func(g int) {
@@ -150,6 +151,9 @@ func runConc(scnFile, traceFile, concFile string) error {
 		enc.Encode(map[string]interface{}{"prog": scn.Gor[g].ID, "i": 0, "op": "Reset"})
 		for _, ev := range prelude {
 			ev.Prog = scn.Gor[g].ID
+			if g > 0 {
+				ev.Adopt = 1 // the prelude ran once; it is validated in the first goroutine's program
+			}
 			enc.Encode(&ev)
 		}
 		for _, ev := range events[g] {
